@@ -23,6 +23,10 @@
 import MdIt.Props.BlockH
 import MdIt.Props.InlineH
 import MdIt.Props.DocTotal
+import MdIt.Props.InlineTotal
+import MdIt.Lemmas.PipelineH
+import MdIt.Lemmas.PipelineHGeo
+import MdIt.Lemmas.MemoSafeLamDoc
 import MdIt.Model.PipelineH
 
 namespace MdIt.PipelineH
@@ -140,5 +144,636 @@ theorem renderDocH_conservative' (x : Bool) (cfg : DocCfgH) (hb : BlockH.RuleIdH
     (hi : InlineH.RuleIdH.html ∉ cfg.inlineChain) (src : List Char) :
     renderDocH x cfg src = renderDoc x cfg.base src := by
   rw [← renderDocH_conservative, ofCfg_base cfg hb hi]
+
+/-! ## (b) only an inline run can panic -/
+
+mutual
+/-- a panic of the splice walk is a panic of one of the placeholder parses -/
+theorem spliceNodeG_panic {parse : List Char → InlineOps.Srcmap → Except Inline.Panic (List Inline.Node)}
+    (b : Block.BNode) (e : Panic) (h : spliceNodeG parse b = .error e) : ∃ p, e = .inline p := by
+  match b with
+  | ⟨k, r, cs⟩ =>
+    simp only [spliceNodeG] at h
+    split at h
+    · rename_i e' he'; cases h; exact spliceListG_panic cs _ he'
+    · cases h
+theorem spliceListG_panic {parse : List Char → InlineOps.Srcmap → Except Inline.Panic (List Inline.Node)}
+    (cs : List Block.BNode) (e : Panic) (h : spliceListG parse cs = .error e) : ∃ p, e = .inline p := by
+  match cs with
+  | [] => simp [spliceListG] at h
+  | c :: rest =>
+    simp only [spliceListG] at h
+    split at h
+    · split at h
+      · cases h; exact ⟨_, rfl⟩
+      · split at h
+        · rename_i e' he'; cases h; exact spliceListG_panic rest _ he'
+        · cases h
+    · split at h
+      · rename_i e' he'; cases h; exact spliceNodeG_panic c _ he'
+      · split at h
+        · rename_i e' he'; cases h; exact spliceListG_panic rest _ he'
+        · cases h
+end
+
+mutual
+theorem spliceNodeG_every' {para markers : Bool}
+    {parse : List Char → InlineOps.Srcmap → Except Inline.Panic (List Inline.Node)}
+    (hp : ∀ c m ns, parse c m = .ok ns → ∀ x ∈ ofInlineList ns, Every (Spliced markers) x)
+    (b : Block.BNode) (hw : Block.WFB para b)
+    (hk : ∀ t m, b.kind ≠ .inlineRoot t m) (t : Node) (h : spliceNodeG parse b = .ok t) :
+    Every (Spliced markers) t ∧ t.kind = .blk b.kind := by
+  match b with
+  | ⟨k, r, cs⟩ =>
+    simp only [spliceNodeG] at h
+    split at h
+    · cases h
+    · rename_i cs' hcs
+      cases h
+      exact ⟨.mk _ ⟨rfl, BlkOK_of_loc hw.at hk⟩ (spliceListG_every hp cs hw.child cs' hcs), rfl⟩
+theorem spliceListG_every {para markers : Bool}
+    {parse : List Char → InlineOps.Srcmap → Except Inline.Panic (List Inline.Node)}
+    (hp : ∀ c m ns, parse c m = .ok ns → ∀ x ∈ ofInlineList ns, Every (Spliced markers) x)
+    (cs : List Block.BNode)
+    (hw : ∀ c ∈ cs, Block.WFB para c) (out : List Node) (h : spliceListG parse cs = .ok out) :
+    ∀ c ∈ out, Every (Spliced markers) c := by
+  match cs with
+  | [] => simp [spliceListG] at h; subst h; simp
+  | c :: rest =>
+    have hrest : ∀ x ∈ rest, Block.WFB para x := fun x hx => hw x (List.mem_cons_of_mem _ hx)
+    simp only [spliceListG] at h
+    split at h
+    · split at h
+      · cases h
+      · rename_i ns hns
+        split at h
+        · cases h
+        · rename_i rest' hr
+          cases h
+          intro x hx
+          rcases List.mem_append.mp hx with h1 | h1
+          · exact hp _ _ ns hns x h1
+          · exact spliceListG_every hp rest hrest rest' hr x h1
+    · rename_i hne
+      split at h
+      · cases h
+      · rename_i c' hc
+        split at h
+        · cases h
+        · rename_i rest' hr
+          cases h
+          intro x hx
+          rcases List.mem_cons.mp hx with rfl | hx
+          · exact (spliceNodeG_every' hp c (hw c (by simp)) (fun t m e => hne t m e) _ hc).1
+          · exact spliceListG_every hp rest hrest rest' hr x hx
+end
+
+theorem any_isEmph_filterMap (l : List InlineH.RuleIdH) :
+    (l.filterMap InlineH.RuleIdH.base?).any Inline.RuleId.isEmph = l.any isEmphH := by
+  induction l with
+  | nil => rfl
+  | cons r rs ih =>
+    cases r with
+    | base r => simp only [List.filterMap_cons, InlineH.RuleIdH.base?, List.any_cons, ih, isEmphH]
+    | html => simp only [List.filterMap_cons, InlineH.RuleIdH.base?, List.any_cons, ih, isEmphH, Bool.false_or]
+
+theorem hasEmph_inlineCfgH (cfg : DocCfgH) (refs : Refs.RefMap) :
+    (cfg.inlineCfg refs).base.hasEmph = cfg.hasJoin := any_isEmph_filterMap cfg.inlineChain
+
+/-- what the placeholder parser with the html rule hands to the splice walk -/
+theorem parseInlineH_spliced (cfg : DocCfgH) (refs : Refs.RefMap) (c : List Char) (m : InlineOps.Srcmap)
+    (ns : List Inline.Node) (h : InlineH.parseInlineH (cfg.inlineCfg refs) c m = .ok ns) :
+    ∀ x ∈ ofInlineList ns, Every (Spliced cfg.hasJoin) x := by
+  have hv := InlineH.parseInlineH_vals (cfg.inlineCfg refs) (valOK_good (cfg.inlineCfg refs).base) h
+  have := ofInlineList_every ns hv
+  rw [hasEmph_inlineCfgH] at this
+  exact this
+
+/-- **The invariant of the parsed tree, with the html plugin** (`Pipeline.parseDoc_final`): whatever
+    `parseDocH` returns is rooted at `Root` and every node of it is `Final` — its attributes are all
+    `data-sourcepos`, its value is no `InlineRoot`, no `EmphMarker`, ATX levels in `1..6`, setext levels
+    in `1..2`.  For EVERY configuration over the extended enumerations. -/
+theorem parseDocH_final {cfg : DocCfgH} {src : List Char} {t : Node} (h : parseDocH cfg src = .ok t) :
+    Every Final t ∧ t.kind = .blk .root := by
+  unfold parseDocH at h
+  split at h
+  · cases h
+  · rename_i root refs hb
+    obtain ⟨hroot, hwf⟩ := BlockH.parseBlocksH_wf hb
+    unfold afterBlocksH at h
+    split at h
+    · cases h
+    · rename_i t0 hs
+      obtain ⟨he0, hk0⟩ := spliceNodeG_every' (parseInlineH_spliced cfg refs) root hwf (by rw [hroot]; simp) t0 hs
+      rw [hroot] at hk0
+      have h1 : Every (Spliced false) (if cfg.hasJoin = true then joinNode t0 else t0) ∧
+          (if cfg.hasJoin = true then joinNode t0 else t0).kind = .blk .root := by
+        cases hj : cfg.hasJoin with
+        | true =>
+          rw [hj] at he0
+          simp only [if_true]
+          exact ⟨joinNode_every he0 (by rw [hk0]; rfl), by rw [joinNode_kind, hk0]⟩
+        | false =>
+          rw [hj] at he0
+          simp only [Bool.false_eq_true, if_false]
+          exact ⟨he0, hk0⟩
+      have h2 := h1.1.imp (fun n => Spliced.final)
+      simp only at h
+      split at h
+      · obtain ⟨h3, h4⟩ := sourceposNode_every _ _ h2 h
+        exact ⟨h3, by rw [h4]; exact h1.2⟩
+      · cases h
+        exact ⟨h2, h1.2⟩
+
+/-- **(b), parse**: for every configuration (html rules anywhere, either or both) and every source,
+    `parseDocH` either returns a tree or fails inside one of the `md.inline.parse` calls: the block
+    pass with the html rule is total, the splice walk, the join pass and `SyntaxPosRule` add no panic. -/
+theorem parseDocH_panic_inline_only {cfg : DocCfgH} {src : List Char} {e : Panic}
+    (h : parseDocH cfg src = .error e) : ∃ p, e = .inline p := by
+  obtain ⟨root, refs, hb⟩ := BlockH.parseBlocksH_total cfg.blockCfg src
+  unfold parseDocH at h
+  rw [hb] at h
+  simp only at h
+  unfold afterBlocksH at h
+  split at h
+  · rename_i e' he'
+    cases h
+    exact spliceNodeG_panic _ _ he'
+  · simp only at h
+    split at h
+    · obtain ⟨t', ht'⟩ := sourceposNode_total src (if cfg.hasJoin = true then joinNode _ else _)
+      rw [ht'] at h
+      cases h
+    · cases h
+
+/-- the block pass always hands a tree to the inline pass -/
+theorem parseDocH_blocks_ok (cfg : DocCfgH) (src : List Char) :
+    ∃ root refs, BlockH.parseBlocksH cfg.blockCfg src = .ok (root, refs) ∧
+      parseDocH cfg src = afterBlocksH cfg src root refs := by
+  obtain ⟨root, refs, hb⟩ := BlockH.parseBlocksH_total cfg.blockCfg src
+  exact ⟨root, refs, hb, by unfold parseDocH; rw [hb]⟩
+
+/-! ### the projection: every node of the rendered tree comes from a node of the document -/
+
+mutual
+/-- every node of a document tree, pre-order -/
+def dnodes : Node → List Node
+  | ⟨k, r, a, cs⟩ => ⟨k, r, a, cs⟩ :: dnodesList cs
+def dnodesList : List Node → List Node
+  | [] => []
+  | c :: cs => dnodes c ++ dnodesList cs
+end
+
+mutual
+theorem every_dnodes {P : Node → Prop} (t : Node) (h : Every P t) : ∀ n ∈ dnodes t, P n := by
+  match t with
+  | ⟨k, r, a, cs⟩ =>
+    intro n hn
+    simp only [dnodes, List.mem_cons] at hn
+    rcases hn with rfl | hn
+    · exact h.here
+    · exact every_dnodesList cs h.child n hn
+theorem every_dnodesList {P : Node → Prop} (cs : List Node) (h : ∀ c ∈ cs, Every P c) :
+    ∀ n ∈ dnodesList cs, P n := by
+  match cs with
+  | [] => simp [dnodesList]
+  | c :: r =>
+    intro n hn
+    simp only [dnodesList, List.mem_append] at hn
+    rcases hn with hn | hn
+    · exact every_dnodes c (h c (by simp)) n hn
+    · exact every_dnodesList r (fun y hy => h y (List.mem_cons_of_mem _ hy)) n hn
+end
+
+mutual
+theorem toRenderH_nodes (hb hi : Bool) (lp : List Char) (t : Node) :
+    ∀ m ∈ NodeRender.nodes (toRenderH hb hi lp t), ∃ n ∈ dnodes t,
+      m.kind = kindToRenderH hb hi lp n.kind ∧ m.attrs = n.attrs := by
+  match t with
+  | ⟨k, r, a, cs⟩ =>
+    intro m hm
+    simp only [toRenderH, NodeRender.nodes, List.mem_cons] at hm
+    rcases hm with rfl | hm
+    · exact ⟨⟨k, r, a, cs⟩, by simp [dnodes], rfl, rfl⟩
+    · obtain ⟨n, hn, h1⟩ := toRenderListH_nodes hb hi lp cs m hm
+      exact ⟨n, by simp only [dnodes, List.mem_cons]; exact .inr hn, h1⟩
+theorem toRenderListH_nodes (hb hi : Bool) (lp : List Char) (cs : List Node) :
+    ∀ m ∈ NodeRender.nodesList (toRenderListH hb hi lp cs), ∃ n ∈ dnodesList cs,
+      m.kind = kindToRenderH hb hi lp n.kind ∧ m.attrs = n.attrs := by
+  match cs with
+  | [] => simp [toRenderListH, NodeRender.nodesList]
+  | c :: r =>
+    intro m hm
+    simp only [toRenderListH, NodeRender.nodesList, List.mem_append] at hm
+    rcases hm with hm | hm
+    · obtain ⟨n, hn, h1⟩ := toRenderH_nodes hb hi lp c m hm
+      exact ⟨n, by simp only [dnodesList, List.mem_append]; exact .inl hn, h1⟩
+    · obtain ⟨n, hn, h1⟩ := toRenderListH_nodes hb hi lp r m hm
+      exact ⟨n, by simp only [dnodesList, List.mem_append]; exact .inr hn, h1⟩
+end
+
+/-- the projection of a value: an html kind (decoded), or what `Pipeline.Kind.toRender` gives -/
+theorem kindToRenderH_cases (hb hi : Bool) (lp : List Char) (k : Kind) :
+    (hb = true ∧ ∃ b c, k = .blk b ∧ BlockH.htmlContent? b = some c ∧ kindToRenderH hb hi lp k = .htmlBlock c) ∨
+    (hi = true ∧ ∃ v c, k = .inl v ∧ InlineH.htmlContent? v = some c ∧ kindToRenderH hb hi lp k = .htmlInline c) ∨
+    kindToRenderH hb hi lp k = k.toRender lp := by
+  cases k with
+  | blk b =>
+    cases hb with
+    | false => exact .inr (.inr rfl)
+    | true =>
+      cases hc : BlockH.htmlContent? b with
+      | none => refine .inr (.inr ?_); simp only [kindToRenderH, hc]
+      | some c => refine .inl ⟨rfl, b, c, rfl, hc, ?_⟩; simp only [kindToRenderH, hc]
+  | inl v =>
+    cases hi with
+    | false => exact .inr (.inr rfl)
+    | true =>
+      cases hc : InlineH.htmlContent? v with
+      | none => refine .inr (.inr ?_); simp only [kindToRenderH, hc]
+      | some c => refine .inr (.inl ⟨rfl, v, c, rfl, hc, ?_⟩); simp only [kindToRenderH, hc]
+
+/-- a final value projects to a kind whose `render` does not panic (the html kinds never do) -/
+theorem kindToRenderH_panic (hb hi : Bool) (lp : List Char) (k : Kind) (hk : KindOK false k) :
+    (kindToRenderH hb hi lp k).panic? = none := by
+  rcases kindToRenderH_cases hb hi lp k with ⟨_, b, c, _, _, e⟩ | ⟨_, v, c, _, _, e⟩ | e
+  · rw [e]; rfl
+  · rw [e]; rfl
+  · rw [e]; exact (NodeRender.Kind.panic?_eq_none_iff _).mpr (toRender_level lp k hk)
+
+theorem final_renderableH (hb hi : Bool) (lp : List Char) (t : Node) (he : Every Final t) :
+    NodeRender.Renderable (toRenderH hb hi lp t) ∧ NodeRender.AttrsSourcepos (toRenderH hb hi lp t) := by
+  constructor
+  · intro m hm
+    obtain ⟨n, hn, hk, _⟩ := toRenderH_nodes hb hi lp t m (NodeRender.visited_subset_nodes _ m hm)
+    rw [hk]
+    exact kindToRenderH_panic hb hi lp n.kind (every_dnodes t he n hn).2
+  · intro m hm
+    obtain ⟨n, hn, _, ha⟩ := toRenderH_nodes hb hi lp t m (NodeRender.visited_subset_nodes _ m hm)
+    rw [ha]
+    exact (every_dnodes t he n hn).1
+
+/-- **`docH_render_total`**: `render` / `xrender` of a tree parsed with the html plugin never panic -/
+theorem docH_render_total (cfg : DocCfgH) (src : List Char) (t : Node) (h : parseDocH cfg src = .ok t) :
+    ∃ evs, renderEventsH cfg t = .ok evs ∧ ∀ x, renderDocH x cfg src = .ok (Render.serialize x evs) := by
+  obtain ⟨evs, he⟩ := (NodeRender.render_total cfg.entity _).mpr
+    (final_renderableH cfg.htmlBlock cfg.htmlInline cfg.langPrefix t (parseDocH_final h).1).1
+  refine ⟨evs, by simp [renderEventsH, he], fun x => ?_⟩
+  simp [renderDocH, h, renderEventsH, he]
+
+/-- **(b), render**: a panic of `src ↦ html` (either serializer) with raw HTML enabled is a panic of
+    one of the inline runs -/
+theorem renderDocH_panic_inline_only {x : Bool} {cfg : DocCfgH} {src : List Char} {e : Panic}
+    (h : renderDocH x cfg src = .error e) : ∃ p, e = .inline p := by
+  cases hp : parseDocH cfg src with
+  | error e' =>
+    have : renderDocH x cfg src = .error e' := by simp [renderDocH, hp]
+    rw [this] at h; cases h
+    exact parseDocH_panic_inline_only hp
+  | ok t =>
+    obtain ⟨evs, _, hr⟩ := docH_render_total cfg src t hp
+    rw [hr x] at h; cases h
+
+/-! ## (d) every `raw` event comes from an html node -/
+
+/-- **(d)**: every `text_raw` call of the rendering of a document tree hands over the content of an
+    html node of that tree, and of the kind whose rule is loaded: an `HtmlBlock` (only when the html
+    block rule is in the block chain) or an `HtmlInline` (only when the html inline rule is in the
+    inline chain).  For ANY tree (not only parsed ones). -/
+theorem renderEventsH_raw_only_from_html (cfg : DocCfgH) (t : Node) (evs : List Render.Event)
+    (h : renderEventsH cfg t = .ok evs) (s : List Char) (hs : Render.Event.raw s ∈ evs) :
+    ∃ n ∈ dnodes t,
+      (cfg.htmlBlock = true ∧ ∃ b, n.kind = .blk b ∧ BlockH.htmlContent? b = some s) ∨
+      (cfg.htmlInline = true ∧ ∃ v, n.kind = .inl v ∧ InlineH.htmlContent? v = some s) := by
+  unfold renderEventsH at h
+  split at h
+  · cases h
+  · rename_i evs' he
+    cases h
+    have hr := NodeRender.html_nodes_are_the_only_raw cfg.entity _ evs he
+    rw [← NodeRender.mem_rawsOf, hr, List.mem_filterMap] at hs
+    obtain ⟨m, hm, hc⟩ := hs
+    obtain ⟨n, hn, hk, _⟩ := toRenderH_nodes _ _ _ t m (NodeRender.visited_subset_nodes _ m hm)
+    refine ⟨n, hn, ?_⟩
+    rw [hk] at hc
+    rcases kindToRenderH_cases cfg.htmlBlock cfg.htmlInline cfg.langPrefix n.kind with
+      ⟨h1, b, c, e1, e2, e3⟩ | ⟨h1, v, c, e1, e2, e3⟩ | e
+    · rw [e3] at hc
+      simp only [NodeRender.Kind.htmlContent?, Option.some.injEq] at hc
+      exact .inl ⟨h1, b, e1, hc ▸ e2⟩
+    · rw [e3] at hc
+      simp only [NodeRender.Kind.htmlContent?, Option.some.injEq] at hc
+      exact .inr ⟨h1, v, e1, hc ▸ e2⟩
+    · rw [e] at hc
+      have := toRender_not_html cfg.langPrefix n.kind
+      cases hk' : Kind.toRender cfg.langPrefix n.kind <;> rw [hk'] at hc <;>
+        simp [NodeRender.Kind.htmlContent?] at hc
+      · exact absurd hk' (this.1 _)
+      · exact absurd hk' (this.2 _)
+
+/-- **(d), whole pipeline** -/
+theorem renderDocH_raw_only_from_html (cfg : DocCfgH) (src : List Char) (t : Node) (evs : List Render.Event)
+    (_hp : parseDocH cfg src = .ok t) (h : renderEventsH cfg t = .ok evs) (s : List Char)
+    (hs : Render.Event.raw s ∈ evs) :
+    ∃ n ∈ dnodes t,
+      (cfg.htmlBlock = true ∧ ∃ b, n.kind = .blk b ∧ BlockH.htmlContent? b = some s) ∨
+      (cfg.htmlInline = true ∧ ∃ v, n.kind = .inl v ∧ InlineH.htmlContent? v = some s) :=
+  renderEventsH_raw_only_from_html cfg t evs h s hs
+
+/-- **(d), plugin off**: without the two html rules the rendering issues no `text_raw` call at all —
+    the C03 statement about html-free configurations is untouched -/
+theorem renderEventsH_no_raw (cfg : DocCfgH) (hb : cfg.htmlBlock = false) (hi : cfg.htmlInline = false)
+    (t : Node) (evs : List Render.Event) (h : renderEventsH cfg t = .ok evs) :
+    ∀ s, Render.Event.raw s ∉ evs := by
+  intro s hs
+  obtain ⟨n, _, ⟨h1, _⟩ | ⟨h1, _⟩⟩ := renderEventsH_raw_only_from_html cfg t evs h s hs
+  · rw [hb] at h1; cases h1
+  · rw [hi] at h1; cases h1
+
+/-! ## (c) totality
+
+    `docH_total_of_inline`: the whole pipeline with the html plugin is total RELATIVE to the inline runs.
+    `docH_total_of_docMemoSafeH`: … hence on every document that passes the executable memo check
+    (`InlineH.memoSafeH`; any chain, link / image included).
+    `doc_totalH_flat_of_tables`: for every configuration whose inline chain has neither the link nor the
+    image rule (html anywhere, emphasis markers single bytes) every source whose placeholder tables are
+    `MapOK` and whose placeholder contents are within `SizeOK` parses and renders in both serializers.
+
+    `docH_tables_mapOK`: the table hypothesis DISCHARGED for tab-free sources: `Pipeline.doc_placeholder_tables`
+    lifts to the ten-rule block engine (`Lemmas/PipelineHGeo.lean`: `Block.tokLoop_geo2` / `c05s_tokLoop_nr` are
+    generic in the runner and apply through `BlockH.tokLoopG_eq`, the nine rules' lemmas verbatim, the html rule
+    by `html_geo` — the proof text of `Block.fence_geo` — and `html_nr`).
+    `doc_totalH_flat`: paragraph rule, raw HTML on, no link / image rule, tab-free source within the `i32` bound
+    of the block side: total in both serializers, under ONE residual hypothesis — every placeholder content is
+    within the size bound of the inline side.
+
+    OPEN: `doc_totalH_flat` without `hlen`.  Missing, precisely: a bound `|content| ≤ |src|` at every
+    placeholder of the block tree (then `4 * |src| + 8 < 2^31` and `max_nesting < 2^30` give `InlineH.SizeOK`);
+    no existing lemma states it (`Block.PMapF` bounds translated POSITIONS, not the content length; it would
+    come from `Lines.get_lines_faithful` for tab-free lines).  The html-free flat theorem
+    (`Inline.parseInline_no_panic_flat`) needs no size bound: the bound is new with `link_level`. -/
+
+mutual
+theorem spliceNodeG_total {parse : List Char → InlineOps.Srcmap → Except Inline.Panic (List Inline.Node)}
+    (b : Block.BNode) (h : Placeholders (fun c m => ∃ cs, parse c m = .ok cs) b) :
+    ∃ t, spliceNodeG parse b = .ok t := by
+  match b with
+  | ⟨k, r, cs⟩ =>
+    simp only [Placeholders] at h
+    obtain ⟨cs', hcs⟩ := spliceListG_total cs h.2
+    have : spliceNodeG parse ⟨k, r, cs⟩ = .ok ⟨.blk k, r, [], cs'⟩ := by simp only [spliceNodeG, hcs]
+    exact ⟨_, this⟩
+theorem spliceListG_total {parse : List Char → InlineOps.Srcmap → Except Inline.Panic (List Inline.Node)}
+    (cs : List Block.BNode) (h : PlaceholdersList (fun c m => ∃ cs, parse c m = .ok cs) cs) :
+    ∃ out, spliceListG parse cs = .ok out := by
+  match cs with
+  | [] => exact ⟨[], by simp [spliceListG]⟩
+  | c :: rest =>
+    simp only [PlaceholdersList] at h
+    obtain ⟨rest', hrest⟩ := spliceListG_total rest h.2
+    match c, h.1 with
+    | ⟨k, r, ccs⟩, hc =>
+      simp only [Placeholders] at hc
+      by_cases hk : ∃ content mapping, k = .inlineRoot content mapping
+      · obtain ⟨content, mapping, rfl⟩ := hk
+        obtain ⟨ns, hns⟩ := hc.1
+        have : spliceListG parse (⟨.inlineRoot content mapping, r, ccs⟩ :: rest)
+            = .ok (ofInlineList ns ++ rest') := by simp only [spliceListG, hns, hrest]
+        exact ⟨_, this⟩
+      · obtain ⟨c', hc'⟩ := spliceNodeG_total (parse := parse) ⟨k, r, ccs⟩
+          (by simp only [Placeholders]; exact hc)
+        have : spliceListG parse (⟨k, r, ccs⟩ :: rest) = .ok (c' :: rest') := by
+          simp only [spliceListG]
+          split
+          · exact absurd ⟨_, _, rfl⟩ hk
+          · simp only [hc', hrest]
+        exact ⟨_, this⟩
+end
+
+/-- **(c), relative to the inline runs**: if every `md.inline.parse` call the document makes returns a
+    tree, `md.parse(src)` returns a tree and both renderers return a string — every configuration with the
+    html plugin, every source -/
+theorem docH_total_of_inline (cfg : DocCfgH) (src : List Char)
+    (h : ∀ root refs, BlockH.parseBlocksH cfg.blockCfg src = .ok (root, refs) →
+      Placeholders (fun c m => ∃ cs, InlineH.parseInlineH (cfg.inlineCfg refs) c m = .ok cs) root) :
+    (∃ t, parseDocH cfg src = .ok t) ∧ ∀ x, ∃ html, renderDocH x cfg src = .ok html := by
+  obtain ⟨root, refs, hb, hp⟩ := parseDocH_blocks_ok cfg src
+  obtain ⟨t0, ht0⟩ := spliceNodeG_total root (h root refs hb)
+  have hdoc : ∃ t, parseDocH cfg src = .ok t := by
+    rw [hp]
+    unfold afterBlocksH
+    rw [ht0]
+    simp only
+    split
+    · exact sourceposNode_total src _
+    · exact ⟨_, rfl⟩
+  refine ⟨hdoc, ?_⟩
+  obtain ⟨t, ht⟩ := hdoc
+  obtain ⟨evs, _, hr⟩ := docH_render_total cfg src t ht
+  exact fun x => ⟨_, hr x⟩
+
+theorem placeholders_imp {P Q : List Char → List (Nat × Nat) → Prop} (hpq : ∀ c m, P c m → Q c m) :
+    ∀ n : Nat, (∀ b : Block.BNode, sizeOf b ≤ n → Placeholders P b → Placeholders Q b) ∧
+      (∀ l : List Block.BNode, sizeOf l ≤ n → PlaceholdersList P l → PlaceholdersList Q l) := by
+  intro n
+  induction n with
+  | zero =>
+    constructor
+    · intro b hb; cases b; simp at hb
+    · intro l hl
+      cases l with
+      | nil => intro _; simp [PlaceholdersList]
+      | cons c cs => simp at hl
+  | succ n ih =>
+    constructor
+    · intro b hb hP
+      match b, hb, hP with
+      | ⟨k, r, cs⟩, hb, hP =>
+        simp only [Placeholders] at hP ⊢
+        refine ⟨?_, ih.2 cs (by simp at hb; omega) hP.2⟩
+        cases k <;> first | trivial | exact hpq _ _ hP.1
+    · intro l hl hP
+      cases l with
+      | nil => simp [PlaceholdersList]
+      | cons c cs =>
+        simp only [PlaceholdersList] at hP ⊢
+        simp at hl
+        exact ⟨ih.1 c (by omega) hP.1, ih.2 cs (by omega) hP.2⟩
+
+/-- the memo check of a whole document with the html plugin: every inline run passes `InlineH.memoSafeH` -/
+def docMemoSafeH (cfg : DocCfgH) (src : List Char) : Bool :=
+  match BlockH.parseBlocksH cfg.blockCfg src with
+  | .error _ => false
+  | .ok (root, refs) => placeholdersB (fun c m => InlineH.memoSafeH (cfg.inlineCfg refs) c m) root
+
+/-- **`md.parse` / `render` / `xrender` with the html plugin are total on every document that passes the
+    memo check** (any chain: link, image, html, …; an executable hypothesis) -/
+theorem docH_total_of_docMemoSafeH (cfg : DocCfgH) (src : List Char) (h : docMemoSafeH cfg src = true) :
+    (∃ t, parseDocH cfg src = .ok t) ∧ ∀ x, ∃ html, renderDocH x cfg src = .ok html := by
+  apply docH_total_of_inline
+  intro root refs hb
+  unfold docMemoSafeH at h
+  rw [hb] at h
+  exact (placeholders_imp (fun c m hm => InlineH.parseInlineH_total_of_memoSafeH _ hm) (sizeOf root)).1 root
+    (Nat.le_refl _) (placeholdersB_sound root h)
+
+/-- **(c) `doc_totalH_flat`, relative to the placeholder tables**: raw HTML on (or off), an inline chain
+    without the link and the image rule, emphasis markers single bytes: every source whose placeholders
+    have well-formed tables (`Inline.MapOK`) and contents within the size bound of the inline side
+    (`2 * |content| + max_nesting < 2^31 - 1`) parses and renders in both serializers without panic. -/
+theorem doc_totalH_flat_of_tables (cfg : DocCfgH) (src : List Char)
+    (hfl : InlineH.RuleIdH.base .link ∉ cfg.inlineChain ∧ InlineH.RuleIdH.base .image ∉ cfg.inlineChain)
+    (hsz : ∀ mk csw, InlineH.RuleIdH.base (.emph mk csw) ∈ cfg.inlineChain → mk.utf8Size = 1)
+    (htab : ∀ root refs, BlockH.parseBlocksH cfg.blockCfg src = .ok (root, refs) →
+      Placeholders (fun c m => Inline.MapOK c m ∧ 2 * InlineOps.byteLen c + cfg.maxNesting < 2 ^ 31 - 1) root) :
+    (∃ t, parseDocH cfg src = .ok t) ∧ ∀ x, ∃ html, renderDocH x cfg src = .ok html := by
+  apply docH_total_of_inline
+  intro root refs hb
+  exact (placeholders_imp (fun c m hm =>
+    InlineH.parseInlineH_total_flat (cfg.inlineCfg refs) hfl hsz hm.1 hm.2) (sizeOf root)).1 root
+    (Nat.le_refl _) (htab root refs hb)
+
+
+/-- every placeholder of a tab-free document parsed with the html block rule has a `MapOK` table -/
+theorem docH_tables_mapOK (cfg : DocCfgH) (src : List Char)
+    (hsmall : 4 * Lines.byteLen src + 8 < 2147483648) (hpara : BlockH.hasParaH cfg.blockChain = true)
+    (htab : '\t' ∉ src) {root : Block.BNode} {refs : Refs.RefMap}
+    (hb : BlockH.parseBlocksH cfg.blockCfg src = .ok (root, refs)) :
+    Block.AllInl (fun c m => Inline.MapOK c m) root :=
+  (BlockH.parseBlocksH_placeholder_tables cfg.blockCfg src hsmall hpara hb).2.imp
+    (fun _ _ ⟨_, _, h⟩ => h.2.2.2.2.1 (h.2.2.2.2.2.1 htab))
+
+/-- **(c) `doc_totalH_flat`**: every configuration with the paragraph rule, raw HTML on (block and / or
+    inline rule anywhere in the chains), an inline chain without the link and the image rule, emphasis
+    markers single bytes, any `max_nesting`, sourcepos on or off: every TAB-FREE source within the `i32`
+    bound of the block side whose placeholder contents are within the size bound of the inline side
+    (`hlen`, see OPEN above) parses and renders in both serializers without panic. -/
+theorem doc_totalH_flat (cfg : DocCfgH) (src : List Char)
+    (hfl : InlineH.RuleIdH.base .link ∉ cfg.inlineChain ∧ InlineH.RuleIdH.base .image ∉ cfg.inlineChain)
+    (hsz : ∀ mk csw, InlineH.RuleIdH.base (.emph mk csw) ∈ cfg.inlineChain → mk.utf8Size = 1)
+    (hpara : BlockH.hasParaH cfg.blockChain = true)
+    (hsmall : 4 * Lines.byteLen src + 8 < 2147483648) (htab : '\t' ∉ src)
+    (hlen : ∀ root refs, BlockH.parseBlocksH cfg.blockCfg src = .ok (root, refs) →
+      Block.AllInl (fun c _ => 2 * InlineOps.byteLen c + cfg.maxNesting < 2 ^ 31 - 1) root) :
+    (∃ t, parseDocH cfg src = .ok t) ∧ ∀ x, ∃ html, renderDocH x cfg src = .ok html := by
+  apply doc_totalH_flat_of_tables cfg src hfl hsz
+  intro root refs hb
+  have hall := allInl_and (Q3 := fun c m => Inline.MapOK c m ∧ 2 * InlineOps.byteLen c + cfg.maxNesting < 2 ^ 31 - 1)
+    (fun _ _ h1 h2 => ⟨h1, h2⟩) (docH_tables_mapOK cfg src hsmall hpara htab hb) (hlen root refs hb)
+  exact (placeholders_of_allInl _ (sizeOf root)).1 root (Nat.le_refl _) hall (BlockH.parseBlocksH_inlNoRange hb)
+
+/-! ## (e) line endings -/
+
+open MdIt.Lines (lfToCr) in
+/-- **(e) LF ↦ CR, parse** (sourcepos off): the SAME tree, ranges included — an equation, for every
+    configuration with the html plugin, no fuel / panic hypothesis (`BlockH.parseBlocksH_cr`) -/
+theorem parseDocH_cr (cfg : DocCfgH) (src : List Char) (hsp : cfg.sourcepos = false) (hcr : '\r' ∉ src) :
+    parseDocH cfg (lfToCr src) = parseDocH cfg src := by
+  unfold parseDocH
+  rw [BlockH.parseBlocksH_cr cfg.blockCfg src hcr]
+  cases BlockH.parseBlocksH cfg.blockCfg src with
+  | error e => rfl
+  | ok w =>
+    obtain ⟨root, refs⟩ := w
+    simp only [afterBlocksH, hsp]
+    rfl
+
+open MdIt.Lines (lfToCr) in
+/-- **(e) LF ↦ CR, render**: the same output in both serializers -/
+theorem renderDocH_cr (x : Bool) (cfg : DocCfgH) (src : List Char) (hsp : cfg.sourcepos = false)
+    (hcr : '\r' ∉ src) : renderDocH x cfg (lfToCr src) = renderDocH x cfg src := by
+  unfold renderDocH
+  rw [parseDocH_cr cfg src hsp hcr]
+
+/-! ## non-vacuity examples (by evaluation) -/
+
+section examples
+
+/-- `Pipeline.exCfg` (all of cmark, `*` `_` `~~`) + both html rules where `cmark::add`, `html::add` put
+    them: `html_block` in front of the heading rule, `html_inline` behind the cmark inline rules -/
+def exCfgH (sp : Bool) (mn : Nat) : DocCfgH :=
+  { DocCfgH.ofCfg (exCfg sp mn) with
+    blockChain := BlockH.stockH
+    inlineChain := (exCfg sp mn).inlineChain.map .base ++ [.html] }
+
+/-- the same without the link and the image rule (the flat case of (c)) -/
+def exFlatH (sp : Bool) (mn : Nat) : DocCfgH :=
+  { exCfgH sp mn with
+    inlineChain := [.base .text, .base .newline, .base .escape, .base .backticks, .base (.emph '*' true),
+                    .base (.emph '_' false), .base .autolink, .base .entity, .base (.emph '~' true), .html] }
+
+def exDoc : List Char := "a <b>c</b>\n\n<div>\n*x*\n</div>\n\n> <!-- c -->".toList
+
+deriving instance DecidableEq for Except
+
+-- the document of the task: inline tags in a paragraph, an html block (no emphasis inside), a comment
+-- block inside a quote; `render` and `xrender`
+example : renderDocH false (exCfgH false 100) exDoc =
+    .ok "<p>a <b>c</b></p>\n<div>\n*x*\n</div>\n<blockquote>\n<!-- c -->\n</blockquote>\n".toList := by
+  decide +kernel
+example : renderDocH true (exCfgH true 100) "<hr>\n\n***\na<br>\nb".toList =
+    .ok "<hr>\n<hr data-sourcepos=\"3:1-3:3\" />\n<p data-sourcepos=\"4:1-5:1\">a<br>\nb</p>\n".toList := by
+  decide +kernel
+-- only the block rule / only the inline rule / neither (conservativity side: escaped text)
+example : renderDocH false { exCfgH false 100 with inlineChain := (exCfg false 100).inlineChain.map .base } exDoc =
+    .ok "<p>a &lt;b&gt;c&lt;/b&gt;</p>\n<div>\n*x*\n</div>\n<blockquote>\n<!-- c -->\n</blockquote>\n".toList := by
+  decide +kernel
+example : renderDocH false { exCfgH false 100 with blockChain := (exCfg false 100).blockChain.map .base } exDoc =
+    .ok "<p>a <b>c</b></p>\n<p><div>\n<em>x</em>\n</div></p>\n<blockquote>\n<p><!-- c --></p>\n</blockquote>\n".toList := by
+  decide +kernel
+example : renderDocH false (DocCfgH.ofCfg (exCfg false 100)) "a <b>c</b>\n\n<div>".toList =
+    renderDoc false (exCfg false 100) "a <b>c</b>\n\n<div>".toList ∧
+    renderDoc false (exCfg false 100) "a <b>c</b>\n\n<div>".toList =
+      .ok "<p>a &lt;b&gt;c&lt;/b&gt;</p>\n<p>&lt;div&gt;</p>\n".toList := by
+  decide +kernel
+-- (b)/(c): the document passes the memo check, so parse and both renderings are total (with link rules)
+example : docMemoSafeH (exCfgH true 100) exDoc = true := by decide +kernel
+example : ∀ x, ∃ html, renderDocH x (exCfgH true 100) exDoc = .ok html :=
+  (docH_total_of_docMemoSafeH _ _ (by decide +kernel)).2
+-- a tag inside a link label, a link inside `<a>`…`</a>`: still total
+example : docMemoSafeH (exCfgH false 100) "[a <b c=\"]\"> d](u) <a>[x](v)</a>\n\n- <pre>\n  y".toList = true := by
+  decide +kernel
+-- (c) flat: the hypotheses of `doc_totalH_flat_of_tables` on the chain side hold for `exFlatH`
+example : (InlineH.RuleIdH.base .link ∉ (exFlatH false 100).inlineChain ∧
+    InlineH.RuleIdH.base .image ∉ (exFlatH false 100).inlineChain) ∧
+    ∀ mk csw, InlineH.RuleIdH.base (.emph mk csw) ∈ (exFlatH false 100).inlineChain → mk.utf8Size = 1 := by
+  refine ⟨by decide, ?_⟩
+  intro mk csw h
+  simp only [exFlatH, List.mem_cons, InlineH.RuleIdH.base.injEq, Inline.RuleId.emph.injEq, reduceCtorEq,
+    false_or, or_false, List.not_mem_nil] at h
+  rcases h with ⟨rfl, _⟩ | ⟨rfl, _⟩ | ⟨rfl, _⟩ <;> decide
+example : renderDocH false (exFlatH false 100) exDoc =
+    .ok "<p>a <b>c</b></p>\n<div>\n*x*\n</div>\n<blockquote>\n<!-- c -->\n</blockquote>\n".toList := by
+  decide +kernel
+-- `doc_totalH_flat` on the example: every hypothesis holds (the residual `hlen` by evaluation)
+def allLenB (mn : Nat) : Block.BNode → Bool
+  | ⟨k, _, cs⟩ => (match k with | .inlineRoot c _ => decide (2 * InlineOps.byteLen c + mn < 2 ^ 31 - 1) | _ => true) &&
+      cs.attach.all (fun ⟨c, _⟩ => allLenB mn c)
+
+example : BlockH.hasParaH (exFlatH false 100).blockChain = true ∧ '\t' ∉ exDoc ∧
+    4 * Lines.byteLen exDoc + 8 < 2147483648 ∧
+    (match BlockH.parseBlocksH (exFlatH false 100).blockCfg exDoc with
+     | .ok (root, _) => allLenB 100 root | .error _ => false) = true := by decide +kernel
+
+-- (d): the raw events of the example are the three html contents, in order
+example : (match parseDocH (exCfgH false 100) exDoc with
+    | .ok t => (match renderEventsH (exCfgH false 100) t with
+                | .ok evs => some (NodeRender.rawsOf evs) | .error _ => none)
+    | .error _ => none) =
+    some ["<b>".toList, "</b>".toList, "<div>\n*x*\n</div>\n".toList, "<!-- c -->\n".toList] := by
+  decide +kernel
+-- (e): CR line endings
+example : renderDocH false (exCfgH false 100) (Lines.lfToCr exDoc) = renderDocH false (exCfgH false 100) exDoc :=
+  renderDocH_cr _ _ _ rfl (by decide)
+example : Lines.lfToCr exDoc = "a <b>c</b>\r\r<div>\r*x*\r</div>\r\r> <!-- c -->".toList := by decide +kernel
+-- the join pass does not merge text ACROSS an html node, and leaves the node alone ("a*<b>*c": both `*`
+-- become text again, one on each side of the tag)
+example : (match parseDocH (exCfgH false 100) "a*<b>*c".toList with
+    | .ok t => t.children.map (fun p => p.children.map (fun n => n.kind))
+    | .error _ => []) =
+    [[.inl (.text "a*".toList), .inl (InlineH.htmlVal "<b>".toList), .inl (.text "*c".toList)]] := by
+  decide +kernel
+
+end examples
 
 end MdIt.PipelineH
